@@ -152,6 +152,9 @@ func ruleSameDescriptor(c *Ctx) {
 		if via || ft == "" {
 			continue
 		}
+		if _, classified := codecSpecs[ct.Name]; !classified && p.codecUnreachable(ct) {
+			continue // not part of the classified world (see codecUnreachable)
+		}
 		lt := p.resolveLogical(ct, 0)
 		E := newEmit(p)
 		a := E.methodTerm(ct, "Append")
